@@ -9,9 +9,10 @@ def run(chk):
     proofs = lib.check_proofs(PID)
     exes = lib.build_impl(); mdl = lib.build_model()
     q = chk.tier == "quick"
-    texts = ["s://u@h:8/a/b?q#f", "//1.2.3.4/x", "//[::1]/x", "//[vF.x]/A", "//H%41/%7e", "a/../b", "/", "", "s:", "//h", "//u@h:", "HTTP://EX/%2e/./x/..", "s:/.//a"]
+    texts = ["s://u@h:8/a/b?q#f", "//1.2.3.4/x", "//[::1]/x", "//[vF.x]/A", "//H%41/%7e", "a/../b", "/", "", "s:", "//h", "//u@h:", "HTTP://EX/%2e/./x/..", "s:/.//a",
+             "//[::A:B]/x", "s://U@[Ab::1.2.3.4]:8/A?Q#F", "//[VF.X]", "//1.2.3.4/%41", "S://[::1]"]
     texts += uris.valid_texts(mdl, uris.small_texts(2, alphabet=uris.SEG_FULL, auths=(None, "//H%41", "//u@[::1]:8", "//1.2.3.4", "//[vF.x]"), schemes=(None, "S"), queries=(None, "%7e"), frags=(None, "F")))
-    if q: texts = texts[:13] + chk.rng.sample(texts[13:], 250)
+    if q: texts = texts[:18] + chk.rng.sample(texts[18:], 250)
     reqs = []
     for t in texts:
         reqs.append("makeowner " + uris.P(t))
@@ -49,6 +50,7 @@ def run(chk):
                 if " ro=1" not in o: chk.violation("a URI passed as read-only argument was modified", {"request": rq, "build": fl, "impl": o})
             elif w == "hist":
                 if "!ro" in o: chk.violation("a URI passed as read-only argument was modified", {"request": rq, "build": fl, "impl": o})
+                elif "!src" in o: chk.violation("a text handed to the parser was written to by a later operation (borrowed text altered)", {"request": rq, "build": fl, "impl": o})
     if corr and not chk.violations:
         rq, fl, o, m = corr[0]
         chk.violation("correspondence broken: memory-tier model and implementation disagree (%d cases)" % len(corr),
